@@ -7,8 +7,8 @@
     than their bounds check (C11), helper calls, Cranelift's code generation.  Those are exercised by checks/C04.py against
     the interpreter (= the ISA by theorem C01); the refusal of local calls is checked there too. *)
 From Coq Require Import ZArith List.
-From RbpfV Require Import MachInt Ebpf ClirSem Isa ClAluProofs ClJmpProofs.
-From RbpfV.gen Require Import ClAlu ClJmp.
+From RbpfV Require Import MachInt Ebpf ClirSem Isa ClAluProofs ClJmpProofs ClMemProofs.
+From RbpfV.gen Require Import ClAlu ClJmp ClMem.
 Import ListNotations.
 Open Scope Z_scope.
 
@@ -26,9 +26,18 @@ Theorem C04_jump_conditions : forall i rd rs,
   Forall (fun o => negb (gen_cl_jmp o i rd rs =? 0) = isa_jump_taken o i rd rs) cl_jmp_ops.
 Proof. exact cl_jmp_arms. Qed.
 
+(** memory instructions: for each of the 22 load / store / atomic-add opcodes the access built by translate_program is the
+    ISA's: same kind and width, effective address (base + offset) mod 2^64 = the ISA address (packet start + immediate
+    [+ source register] for absolute / indirect loads, register + offset otherwise), same stored / added value modulo the
+    width, loaded value zero-extended into the ISA's destination register *)
+Theorem C04_memory_accesses : forall i rd rs mb,
+  0 <= rd < 2 ^ 64 -> 0 <= rs < 2 ^ 64 -> 0 <= mb < 2 ^ 64 -> - 2 ^ 15 <= off i < 2 ^ 15 -> - 2 ^ 31 <= imm i < 2 ^ 31 ->
+  Forall (fun o => access_matches o i rd rs mb) cl_mem_ops.
+Proof. exact cl_mem_arms. Qed.
+
 (** non-vacuity: 50 opcodes; a division by a zero register gives 0, a 32-bit modulo by zero keeps all 64 bits *)
 Example C04_example :
-  List.length cl_alu_ops = 50%nat /\ List.length cl_jmp_ops = 44%nat /\
+  List.length cl_alu_ops = 50%nat /\ List.length cl_jmp_ops = 44%nat /\ List.length cl_mem_ops = 22%nat /\
   gen_cl_jmp 0x25 {| opc := 0x25; dst := 1; src := 0; off := 2; imm := 0x40 |} (2 ^ 32) 0 = 1 /\
   gen_cl_alu 0x3c {| opc := 0x3c; dst := 1; src := 2; off := 0; imm := 0 |} 77 0 = Ok (Some 0) /\
   gen_cl_alu 0x9c {| opc := 0x9c; dst := 1; src := 2; off := 0; imm := 0 |} 0x123456789abcdef0 (2 ^ 32) = Ok (Some 0x123456789abcdef0) /\
@@ -37,3 +46,4 @@ Proof. vm_compute. repeat split. Qed.
 
 Print Assumptions C04_alu_arms.
 Print Assumptions C04_jump_conditions.
+Print Assumptions C04_memory_accesses.
